@@ -328,11 +328,11 @@ OBLIGATIONS = [
                parts={"quick": _term_parts(True), "thorough": _term_parts(False)},
                timeout={"quick": 240, "thorough": 1200}, path_timeout=30, symbolic="two error locations (line, column)"),
     Obligation("logical_lines", ob_logical,
-               bounds="two physical lines of together <= 4 (quick) / each <= 4 (thorough) symbols over {a, space, backslash, double quote, single quote, #, ;} followed by a "
+               bounds="two physical lines of together <= 4 (quick) / <= 5 (thorough) symbols over {a, space, backslash, double quote, single quote, #, ;} followed by a "
                       "fixed line; every line index",
                pre=["0 <= la <= 4", "0 <= lb <= 4"] + [f"0 <= {v} < 7" for v in ("a0", "a1", "a2", "a3", "b0", "b1", "b2", "b3")],
                parts={"quick": [dict(n=2, la=x, lb=y, a3=0, b3=0) for x in range(4) for y in range(4) if x + y <= 4],
-                      "thorough": [dict(n=2, la=x, lb=y) for x in range(5) for y in range(5)]},
+                      "thorough": [dict(n=2, la=x, lb=y) for x in range(5) for y in range(5) if x + y <= 5]},
                timeout={"quick": 330, "thorough": 1200}, regions={"C03-logical-line-after-comment-backslash": _region_comment_backslash},
                region_parts={"C03-logical-line-after-comment-backslash": lambda p: p.get("la", 0) >= 2 and p.get("lb", 0) >= 2},
                symbolic="symbol index per position, line index"),
